@@ -9,6 +9,7 @@ CONSTANTS
   CookieAgeOverridesExp = FALSE
   AudienceIsUrlRoot = FALSE
   PreflightBypass = TRUE
+  SubjectFromUid = FALSE
 INIT Init
 NEXT Next
 INVARIANTS
